@@ -549,7 +549,7 @@ func abstractLt(e *p2pexec.Executor, lb *types.LightBlock, sender int) (string, 
 	key := "-"
 	if h := lb.GetHeader().GetHash(); len(h) > 0 {
 		key = "f" + e.Reg.Token(string(h))
-		if strings.HasPrefix(string(h), "key-") {
+		if strings.HasPrefix(string(h), "key-") && safeWord(string(h)[4:]) {
 			key = string(h)[4:]
 		}
 	}
@@ -566,11 +566,23 @@ func abstractLt(e *p2pexec.Executor, lb *types.LightBlock, sender int) (string, 
 		hs = append(hs, e.Reg.Token(h))
 	}
 	for _, w := range append([]string{key}, hs...) {
-		if strings.ContainsAny(w, " \t\n,") {
+		if !safeWord(w) {
 			return "", false
 		}
 	}
 	return fmt.Sprintf("lt %s %d %d %d %s %d %s", key, b2i(lb.Header != nil), lb.GetHeader().GetHeight(), cnt, miner, sender, p2pexec.JoinOr(hs, ",")), true
+}
+
+func safeWord(s string) bool {
+	if s == "" {
+		return false
+	}
+	for _, c := range s {
+		if !(c >= '0' && c <= '9' || c >= 'a' && c <= 'z' || c >= 'A' && c <= 'Z' || c == '-' || c == '_') {
+			return false
+		}
+	}
+	return true
 }
 
 func byteFuzzScenario(e *p2pexec.Executor, r *gen.Rand) {
